@@ -4,12 +4,12 @@ use crate::common::*;
 
 pub fn run(ctx: &Ctx) -> Outcome {
     let mut out = Outcome::default();
-    let d = ctx.tier.pick(6, 8);
+    let d = ctx.tier.pick(7, 8);
     for (i, m) in [(8usize, 8usize), (8, 32), (32, 8)] {
         run_and_report(ctx, &tx_flow(ctx.tier, i, m, d), &mut out);
     }
-    run_and_report(ctx, &tx_grow(ctx.tier, ctx.tier.pick(5, 7)), &mut out);
-    run_and_report(ctx, &tx_empty_write(ctx.tier, ctx.tier.pick(6, 8)), &mut out);
+    run_and_report(ctx, &tx_grow(ctx.tier, ctx.tier.pick(6, 7)), &mut out);
+    run_and_report(ctx, &tx_empty_write(ctx.tier, ctx.tier.pick(7, 8)), &mut out);
     // the write half and the connection on different threads (a multi-threaded runtime)
     {
         use crate::solo::threads::*;
